@@ -608,7 +608,7 @@ def scale_ladder(ctx):
 
 
 def run(ctx):
-    ctx.check_proofs(["MPilot.Props.C01", "MPilot.Props.C01Hist"])
+    ctx.check_proofs(["MPilot.Props.C01", "MPilot.Props.C01Hist", "MPilot.Props.C01Edit"])
     model = common.Model()
     scs = scenarios(ctx)
     classes = decl_classes()
